@@ -54,3 +54,56 @@ Fixpoint segs_ok (needle : str) (sr : bool) (ss : list seg) (rest : str) : bool 
   end.
 
 Definition quote_free (s : str) : bool := forallb (fun c => negb (is_quote c)) s.
+
+(* ---- programs: pieces whose class is known by construction ---- *)
+Inductive simple :=
+| PBlank (l : str)
+| PLineComment (l : str)
+| PCode (ind : str) (ss : list seg)
+| PCodeComment (ind : str) (ss : list seg) (p text : str)
+| PBlock1 (ws : str) (c : mlc) (text tail : str)
+| PBlockN (ws : str) (c : mlc) (text0 : str) (mids : list str) (textN tail : str).
+
+Definition render_simple (p : simple) : list str :=
+  match p with
+  | PBlank l => [l]
+  | PLineComment l => [l]
+  | PCode ind ss => [ind ++ render_segs ss]
+  | PCodeComment ind ss p text => [ind ++ render_segs ss ++ p ++ text]
+  | PBlock1 ws c text tail => [ws ++ ml_start c ++ text ++ ml_end c ++ tail]
+  | PBlockN ws c text0 mids textN tail =>
+      (ws ++ ml_start c ++ text0) :: mids ++ [textN ++ ml_end c ++ tail]
+  end.
+
+Definition truth_simple (p : simple) : list class :=
+  match p with
+  | PBlank _ => [Blank]
+  | PLineComment _ => [Comment]
+  | PCode _ _ => [Code]
+  | PCodeComment _ _ _ _ => [Code]
+  | PBlock1 _ _ _ _ => [Comment]
+  | PBlockN _ _ _ mids _ _ => Comment :: repeat Comment (length mids) ++ [Comment]
+  end.
+
+Inductive item :=
+| Simple (p : simple)
+| IgnoreNext (dl : str) (body : list simple)
+| IgnoreBlock (ds : str) (body : list simple) (de : str).
+
+Definition render_simples (ps : list simple) : list str := flat_map render_simple ps.
+Definition truth_simples (ps : list simple) : list class := flat_map truth_simple ps.
+
+Definition render_pitem (i : item) : list str :=
+  match i with
+  | Simple p => render_simple p
+  | IgnoreNext dl body => dl :: render_simples body
+  | IgnoreBlock ds body de => ds :: render_simples body ++ [de]
+  end.
+Definition truth_pitem (i : item) : list class :=
+  match i with
+  | Simple p => truth_simple p
+  | IgnoreNext _ body => Comment :: repeat Ignored (length (render_simples body))
+  | IgnoreBlock _ body _ => Comment :: repeat Ignored (length (render_simples body)) ++ [Comment]
+  end.
+Definition render_program (is : list item) : list str := flat_map render_pitem is.
+Definition truth_program (is : list item) : list class := flat_map truth_pitem is.
